@@ -118,7 +118,12 @@ def rule_definite_assignment(ck, repo, R):
     ck.decide(not any(k == 'end' for _, k in missing), R, 'calc_implicit:end', None, 'calc_implicit can fall off the end without assigning the count',
               file=f.file, line=f.node.end_lineno, func=f.qualname)
     # assigned values: None or small ints or rule h
-    vals = {src(n.value) for n in ast.walk(f.node) if isinstance(n, ast.Assign) and src(n.targets[0]) == 'atom._implicit_hydrogens'}
+    def leaves(v):
+        return leaves(v.body) | leaves(v.orelse) if isinstance(v, ast.IfExp) else {src(v)}
+    vals = set()
+    for n in ast.walk(f.node):
+        if isinstance(n, ast.Assign) and src(n.targets[0]) == 'atom._implicit_hydrogens':
+            vals |= leaves(n.value)
     ck.decide(vals <= {'None', '0', '1', 'h'}, R, 'calc_implicit:values', sorted(vals), f'calc_implicit assigns {sorted(vals)}', file=f.file, line=f.lineno)
     cv = repo.func('chython.algorithms.standardize.molecule:Standardize.check_valence')
     b = strip_doc(cv.node.body)
@@ -192,8 +197,9 @@ def rule_sibling_agreement(ck, repo, R):
         # the predicate
         found = None
         for n in ast.walk(f.node):
-            if isinstance(n, ast.If):
-                cs = [src(c) for c in conjuncts(n.test)]
+            tests = [n.test] if isinstance(n, ast.If) else [n.elt] + [i for g in n.generators for i in g.ifs] if isinstance(n, ast.GeneratorExp) else []
+            for t in tests:
+                cs = [src(c) for c in conjuncts(t)]
                 if any('issubset' in c for c in cs):
                     found = (n, cs)
         ck.require(found is not None, f'{fq}: rule predicate (issubset ...) not found')
@@ -221,22 +227,37 @@ def rule_sibling_agreement(ck, repo, R):
     f = repo.func(sites[1])
     h_par = f.params()[-1]
     loop = [n for n in ast.walk(f.node) if isinstance(n, ast.For) and src(n.iter) == 'rules']
-    ck.require(len(loop) == 1 and isinstance(loop[0].target, ast.Tuple) and len(loop[0].target.elts) == 3, 'check_implicit: rule loop not found')
-    hv = src(loop[0].target.elts[2])
-    ifs = [n for n in loop[0].body if isinstance(n, ast.If)]
+    anys = [n for n in ast.walk(f.node) if isinstance(n, ast.Return) and isinstance(n.value, ast.Call) and src(n.value.func) == 'any' and n.value.args and
+            isinstance(n.value.args[0], ast.GeneratorExp) and src(n.value.args[0].generators[0].iter) == 'rules']
     ok = False
     got = None
-    if len(ifs) == 1:
-        cs = {src(c) for c in conjuncts(ifs[0].test)}
+    line = f.lineno
+    if len(loop) == 1 and isinstance(loop[0].target, ast.Tuple) and len(loop[0].target.elts) == 3:
+        line = loop[0].lineno
+        hv = src(loop[0].target.elts[2])
+        ifs = [n for n in loop[0].body if isinstance(n, ast.If)]
+        if len(ifs) == 1:
+            cs = {src(c) for c in conjuncts(ifs[0].test)}
+            got = sorted(cs)
+            has_h = f'{h_par} == {hv}' in cs or f'{hv} == {h_par}' in cs
+            rets = [x for x in ifs[0].body if isinstance(x, ast.Return)]
+            ok = has_h and core <= cs and len(rets) == 1 and src(rets[0].value) == 'True' and not ifs[0].orelse
+        tail = [x for x in f.node.body if isinstance(x, ast.Return)]
+        ok = ok and bool(tail) and src(tail[-1].value) == 'False'
+    elif len(anys) == 1 and isinstance(anys[0].value.args[0].generators[0].target, ast.Tuple):  # return any(<predicate> for s, d, _h in rules)
+        g = anys[0].value.args[0]
+        line = anys[0].lineno
+        hv = src(g.generators[0].target.elts[2])
+        cs = {src(c) for c in conjuncts(g.elt)} | {src(c) for i in g.generators[0].ifs for c in conjuncts(i)}
         got = sorted(cs)
-        has_h = f'{h_par} == {hv}' in cs or f'{hv} == {h_par}' in cs
-        rets = [x for x in ifs[0].body if isinstance(x, ast.Return)]
-        ok = has_h and core <= cs and len(rets) == 1 and src(rets[0].value) == 'True' and not ifs[0].orelse
-    tail = [x for x in f.node.body if isinstance(x, ast.Return)]
-    ck.decide(ok and tail and src(tail[-1].value) == 'False', R, 'check_implicit:exists-rule-with-count', got,
+        ok = (f'{h_par} == {hv}' in cs or f'{hv} == {h_par}' in cs) and core <= cs
+    else:
+        raise AnalysisError('check_implicit: rule loop / any(...) over rules not found')
+    hv = hv if 'hv' in dir() else '_h'
+    ck.decide(ok, R, 'check_implicit:exists-rule-with-count', got,
               f'check_implicit must return True iff SOME rule has the requested count and a matching environment (`{h_par} == {hv} and s.issubset(..) and all(..)` -> return True; '
               f'after the loop return False); found predicate {got}: deciding on the first rule whose environment matches rejects the secondary valence states of the tables',
-              file=f.file, line=loop[0].lineno, func=f.qualname)
+              file=f.file, line=line, func=f.qualname)
     ck.floor(R, 13)
 
 
@@ -244,29 +265,60 @@ def rule_aromatic_carbon(ck, repo, R):
     ck.rule(R, 'aromatic special case of calc_implicit: only neutral non-radical carbon is computed; with two aromatic bonds the count is '
                '1 - (sum of other bond orders) for sums 0/1, with three aromatic bonds 0 when nothing else is attached; everything else is unknown (None)')
     f = repo.func(f'{MOL}:MoleculeContainer.calc_implicit')
-    table = {}
-    for n in ast.walk(f.node):
-        if isinstance(n, ast.If):
-            for test, blk in if_chain(n):
-                if test is None:
-                    continue
-                t = src(test)
-                if t in ('aroma == 2', 'aroma == 3', 'aroma'):
-                    inner = [s for s in blk if isinstance(s, ast.If)]
-                    if inner:
-                        for t2, b2 in if_chain(inner[0]):
-                            val = [src(a.value) for a in b2 if isinstance(a, ast.Assign) and src(a.targets[0]) == 'atom._implicit_hydrogens']
-                            table[(t, src(t2) if t2 is not None else 'else')] = val[0] if val else None
-                    else:
-                        val = [src(a.value) for a in blk if isinstance(a, ast.Assign) and src(a.targets[0]) == 'atom._implicit_hydrogens']
-                        table[(t, '')] = val[0] if val else None
-    want = {('aroma == 2', 'explicit_sum == 0'): '1', ('aroma == 2', 'explicit_sum == 1'): '0', ('aroma == 2', 'else'): 'None',
-            ('aroma == 3', 'explicit_sum'): 'None', ('aroma == 3', 'else'): '0', ('aroma', ''): 'None'}
-    if set(table) != set(want):
-        raise AnalysisError(f'calc_implicit: aromatic decision table has an unknown shape: {sorted(table)}')
-    for k, v in want.items():
-        ck.decide(table[k] == v, R, f'{k[0]}|{k[1]}', table[k], f'calc_implicit: for {k[0]} / {k[1] or "any"} the count is {table[k]}, chemistry says {v}',
-                  file=f.file, line=f.lineno, func=f.qualname)
+    from .r_readers import _tv, _Unk
+    body = strip_doc(f.node.body)
+    loops = [k for k, st in enumerate(body) if isinstance(st, ast.For) and '_bonds[n]' in src(st.iter)]
+    ck.require(len(loops) == 1, 'calc_implicit: accumulation loop over self._bonds[n] not found')
+    tail = body[loops[0] + 1:]
+
+    class _Done(Exception):
+        pass
+
+    def run(stmts, env):
+        for st in stmts:
+            if isinstance(st, ast.If):
+                run(st.body if _tv(st.test, env) else st.orelse, env)
+            elif isinstance(st, ast.Assign) and isinstance(st.targets[0], ast.Attribute) and st.targets[0].attr == '_implicit_hydrogens':
+                v = st.value
+                while isinstance(v, ast.IfExp):
+                    v = v.body if _tv(v.test, env) else v.orelse
+                if not isinstance(v, ast.Constant):
+                    raise _Unk(f'hydrogen count expression {src(st.value)}')
+                env['__h'] = v.value
+            elif isinstance(st, ast.Return):
+                env['__out'] = ('set', env.get('__h', 'unset'))
+                raise _Done()
+            elif isinstance(st, ast.Try):
+                env['__out'] = ('rules',)
+                raise _Done()
+            elif isinstance(st, (ast.Expr, ast.Pass)):
+                pass
+            else:
+                raise _Unk(type(st).__name__)
+        return env
+    want = {}
+    for ar in range(0, 5):
+        for es in range(0, 4):
+            if ar == 0:
+                want[(ar, es)] = ('rules',)
+            elif ar == 2:
+                want[(ar, es)] = ('set', 1 if es == 0 else 0 if es == 1 else None)
+            elif ar == 3:
+                want[(ar, es)] = ('set', 0 if es == 0 else None)
+            else:
+                want[(ar, es)] = ('set', None)
+    for (ar, es), w in want.items():
+        env = {'aroma': ar, 'explicit_sum': es}
+        try:
+            run(tail, env)
+            got = env.get('__out', ('falls-off',))
+        except _Done:
+            got = env['__out']
+        except _Unk as e:
+            raise AnalysisError(f'calc_implicit: aromatic decision not understood for aroma={ar}, explicit_sum={es}: {e}')
+        ck.decide(got == w, R, f'aroma={ar}|sum={es}', got,
+                  f'calc_implicit: an atom with {ar} aromatic bonds and other bond orders summing to {es} gets {got}; chemistry says {w} '
+                  f'(2 aromatic bonds use 3 valence units, 3 use 4; anything else is unknown)', file=f.file, line=f.lineno, func=f.qualname)
     s = src(f.node)
     ck.decide('if not atom.charge and (not atom.is_radical) and (atom == C)' in s, R, 'carbon-only', None,
               'the aromatic shortcut is no longer restricted to neutral non-radical carbon', file=f.file, line=f.lineno)
